@@ -285,3 +285,30 @@ def _(c):
 
 def h_body_is(handler, text):
     return '\n'.join(ast.unparse(s) for s in handler.body if not (isinstance(s, ast.Expr) and isinstance(s.value, ast.Constant))) == text
+
+
+@contract(RL, '<rename-block>', props=['C13'])
+def _(c):
+    c.trusted = True
+
+    def rename_names(repo):
+        """save_manifests: the new name of a re-compressed Manifest is old + '.' + target format when compressing and the
+        old name without *its own* suffix when un-compressing; the decision compares is_compr with the profile's answer"""
+        fn = _fn(repo, 'ManifestRecursiveLoader.save_manifests')
+        assigns = [ast.unparse(n.value) for n in ast.walk(fn) if isinstance(n, ast.Assign) and ast.unparse(n.targets[0]) == 'new_mpath']
+        conds = [ast.unparse(n.test) for n in ast.walk(fn) if isinstance(n, ast.If)]
+        ok = sorted(assigns) == sorted(["mpath + '.' + compress_format", 'mpath[:-len(compr) - 1]']) \
+            and 'want_compr is not None and is_compr != want_compr' in conds \
+            and any(ast.unparse(n) == 'compr = get_compressed_suffix_from_filename(mpath)' for n in ast.walk(fn) if isinstance(n, ast.Assign)) \
+            and any(ast.unparse(n) == 'is_compr = compr is not None' for n in ast.walk(fn) if isinstance(n, ast.Assign)) \
+            and any(ast.unparse(n) == 'unc_size = self.save_manifest(mpath, sort=sort)' for n in ast.walk(fn) if isinstance(n, ast.Assign))
+        return ok, {'new_mpath': assigns}
+    c.const('renamed-manifest-names-are-derived-from-the-actual-suffix', rename_names)
+
+    def size_is_uncompressed(repo):
+        """save_manifest returns the position of the uncompressed text stream (f.buffer.tell() after flush), not a file size"""
+        fn = _fn(repo, 'ManifestRecursiveLoader.save_manifest')
+        rets = [ast.unparse(n.value) for n in ast.walk(fn) if isinstance(n, ast.Return) and n.value is not None]
+        calls = [ast.unparse(n) for n in ast.walk(fn) if isinstance(n, ast.Call)]
+        return rets == ['f.buffer.tell()'] and 'f.flush()' in calls, {'returns': rets}
+    c.const('watermark-compares-the-uncompressed-size', size_is_uncompressed)
